@@ -80,6 +80,16 @@ rule "Q" salience 3 no-loop { when T1.v < 5 then log("q"); }"#,
             action_free: true,
             types: vec!["T0", "T1"],
         },
+        // non-integral float literals against integer facts: `>= 5.5` is `>= 6`, `< 5.5` is `< 6`, `== 5.5` never holds
+        RuleSet {
+            name: "float_literal_on_integer_facts",
+            grl: r#"rule "G" no-loop { when T0.v >= 5.5 then log("g"); }
+rule "L" no-loop { when T0.v < 5.5 then log("l"); }
+rule "E" no-loop { when T0.v == 5.5 then log("e"); }"#,
+            rules: vec![r("G", "T0", ">=", 6), r("L", "T0", "<", 6), r("E", "T0", "never", 0)],
+            action_free: true,
+            types: vec!["T0"],
+        },
         // the facts of this rule set hold v as a float (FLOAT_SETS_FROM): integer literal against float fact
         RuleSet {
             name: "gte_lte_on_float_facts",
@@ -102,8 +112,8 @@ rule "U" no-loop { when T0.v == "gold" then log("u"); }"#,
     ]
 }
 
-const FLOAT_SETS_FROM: usize = 6;
-const TEXT_SETS_FROM: usize = 7;
+const FLOAT_SETS_FROM: usize = 7;
+const TEXT_SETS_FROM: usize = 8;
 
 fn text_of(v: i64) -> &'static str {
     match v {
@@ -449,6 +459,12 @@ impl System for Sys {
                     }
                     if !must.is_subset(&got) {
                         return Err(Mismatch::tagged("satisfied_rule_did_not_fire", format!("fire_all() fired {:?}; {:?} have not fired since the reset and are satisfied by a live fact inserted or updated after the previous fire_all", ret, must), &["history_with_reset"]));
+                    }
+                    // third bound: a fire_all that fires anything fires everything that is due — the statement's "fires every
+                    // no-loop rule that some live fact satisfies" read as weakly as the reset ambiguity allows (the only
+                    // behaviour left open is a fire_all after a reset that fires nothing at all)
+                    if !got.is_empty() && got != may {
+                        return Err(Mismatch::tagged("satisfied_rule_did_not_fire", format!("fire_all() fired {:?} but not {:?}, which have not fired since the reset and are satisfied by a live fact", ret, may.difference(&got).collect::<Vec<_>>()), &["history_with_reset", "some_rule_fired"]));
                     }
                     self.check_views(true)?;
                 } else {
